@@ -32,6 +32,7 @@ import gtirb_rewriting._auxdata as _auxdata
 import gtirb_rewriting._auxdata_offsetmap as _auxdata_offsetmap
 from gtirb_rewriting._modify.functions import remove_function_block_aux
 
+from .. import _verif
 from .._auxdata_offsetmap import OFFSETMAP_AUX_DATA_TABLES
 from ..utils import (
     _block_fallthrough_targets,
@@ -441,5 +442,14 @@ def remove_block(
                     gtirb.EdgeLabel(gtirb.EdgeType.Fallthrough),
                 )
             )
+
+    if _verif.ENABLED:
+        _verif.emit(
+            "remove_block",
+            cache=cache,
+            block=block,
+            removed=can_remove,
+            retarget_to_proxy=retarget_to_proxy,
+        )
 
     return can_remove
